@@ -30,7 +30,15 @@ type outcome struct {
 	sc    *scenario
 }
 
-func runScenario(rig *proxyRig, p Params) outcome {
+// rigs[0] serves with martian's own connection loop (production), rigs[1] with
+// martian's http.Handler on net/http's server (config TestingHTTPHandler).
+type rigSet [2]*proxyRig
+
+func runScenario(rigs rigSet, p Params) outcome {
+	rig := rigs[0]
+	if p.Handler {
+		rig = rigs[1]
+	}
 	t0 := time.Now()
 	sc := newScenario(p)
 	l, err := net.Listen("tcp", "127.0.0.1:0")
@@ -51,6 +59,9 @@ func runScenario(rig *proxyRig, p Params) outcome {
 	go sc.runClient(addr, &wg)
 	wg.Wait()
 	o := outcome{res: sc.observe(), sc: sc}
+	if o.res.Timeout {
+		timedOut.Add(1)
+	}
 	if p.Gated {
 		o.built = buildTrace(sc)
 	}
@@ -187,12 +198,31 @@ func genOne(r *rng.R, idx int, seed uint64, mode string, gated, concrete bool, t
 		if v := p.ReplyVariant; v == 5 || v == 6 {
 			// a 2xx reply to CONNECT declaring a body: if the proxy honours the declaration the tunnel
 			// loses bytes or never starts; do not wait long for that
-			p.TimeoutMs = 2500
+			p.TimeoutMs = 6000
+			for d := 0; d < 2; d++ {
+				if p.Len[d] > 65536 {
+					p.Len[d] = 65536 - r.Intn(3000)
+				}
+			}
+			p.SlowReader = [2]bool{}
+			if p.Early > p.Len[CT] {
+				p.Early = p.Len[CT]
+			}
+			if p.Banner > p.Len[TC] {
+				p.Banner = p.Len[TC]
+			}
+			for d := 0; d < 2; d++ {
+				if p.Post[d] > p.Len[d]-[2]int{p.Early, p.Banner}[d] {
+					p.Post[d] = 0
+				}
+			}
 		}
 	}
 	if mode == "connectfunc" {
 		p.FnWrap = r.Intn(2) == 0
 	}
+	// one in six through martian's http.Handler on net/http's server (Hijack path of proxy_handler.go)
+	p.Handler = r.Intn(6) == 0
 	return p
 }
 
@@ -213,6 +243,36 @@ func genParams(tier string, seed uint64) []Params {
 	}
 	for i := 0; i < nN; i++ {
 		out = append(out, genOne(r, len(out), seed, nativeModes[i%len(nativeModes)], false, i%3 == 0, tier))
+	}
+	if tier == "thorough" {
+		// a complete grid over the discrete choices, with tiny payloads: mode x close order x early x banner x
+		// read schedule on the listener side x handler
+		for _, mode := range gatedModes {
+			for _, order := range []string{"client_first", "target_first", "simultaneous"} {
+				for _, early := range []int{0, 1, 5} {
+					for _, banner := range []int{0, 1, 5} {
+						for _, sched := range []string{"full", "byte", "small"} {
+							for _, handler := range []bool{false, true} {
+								p := Params{Idx: len(out), Seed: seed*1000003 + uint64(len(out)), Mode: mode, Gated: true, Concrete: true,
+									Len: [2]int{5 + r.Intn(20), 5 + r.Intn(20)}, Early: early, Banner: banner, Order: order,
+									Seg: [2]string{"small", "small"}, HeadPieces: 1 + r.Intn(2), Eager: true,
+									Sched: [2]string{sched, pickS(r, "full", "byte", "small")}, Handler: handler}
+								switch order {
+								case "client_first":
+									p.Post[TC] = r.Intn(4)
+								case "target_first":
+									p.Post[CT] = r.Intn(4)
+								}
+								if mode == "uphttp" {
+									p.ReplyVariant = r.Intn(len(upReplies))
+								}
+								out = append(out, p)
+							}
+						}
+					}
+				}
+			}
+		}
 	}
 	return out
 }
@@ -329,12 +389,16 @@ func main() {
 	par := flag.Int("par", 16, "scenarios in flight")
 	flag.Parse()
 
-	rig, err := startProxy(false)
-	if err != nil {
-		fmt.Fprintln(os.Stderr, "starting proxy:", err)
-		os.Exit(2)
+	var rig rigSet
+	for i, h := range []bool{false, true} {
+		r, err := startProxy(h)
+		if err != nil {
+			fmt.Fprintln(os.Stderr, "starting proxy:", err)
+			os.Exit(2)
+		}
+		defer r.cancel()
+		rig[i] = r
 	}
-	defer rig.cancel()
 	bufLen := forwarder.VerifC03CopyBufLen()
 	fd0 := countFDs()
 
@@ -363,12 +427,34 @@ func main() {
 		old := forwarder.VerifC03SetTunnelGrace(time.Duration(params[0].GraceMs) * time.Millisecond)
 		defer forwarder.VerifC03SetTunnelGrace(old)
 	}
+	// thorough: the real, unshortened grace period (Tables.v grace_ns) is observed once per run,
+	// concurrently with the sweep: a second closer silent for longer than the period is cut.
+	var realGrace []outcome
+	var rgWG sync.WaitGroup
+	if *replay == "" && *tier == "thorough" && *graceNs <= 120e9 {
+		ps := realGraceParams(*seed, len(params)+100, *graceNs)
+		realGrace = make([]outcome, len(ps))
+		for i := range ps {
+			rgWG.Add(1)
+			go func(i int) {
+				defer rgWG.Done()
+				realGrace[i] = runScenario(rig, ps[i])
+			}(i)
+		}
+	}
 	outs := make([]outcome, len(params))
+	ran := make([]bool, len(params))
 	var wg sync.WaitGroup
 	sem := make(chan struct{}, *par)
+	skipped := 0
 	for i := range params {
+		if timedOut.Load() >= 48 {
+			skipped++ // enough evidence that tunnels hang; the run fails anyway
+			continue
+		}
 		wg.Add(1)
 		sem <- struct{}{}
+		ran[i] = true
 		go func(i int) {
 			defer wg.Done()
 			defer func() { <-sem }()
@@ -376,7 +462,17 @@ func main() {
 		}(i)
 	}
 	wg.Wait()
+	if skipped > 0 {
+		var kept []outcome
+		for i := range outs {
+			if ran[i] {
+				kept = append(kept, outs[i])
+			}
+		}
+		outs = kept
+	}
 
+	rgWG.Wait()
 	// short-grace batch: the forced close after the grace period, and flow before it
 	var graceOuts []outcome
 	shortGrace := int64(0)
@@ -387,8 +483,13 @@ func main() {
 		graceOuts, outs = outs, nil
 	}
 
-	time.Sleep(300 * time.Millisecond)
+	// every tunnel has ended: the process must be back to the descriptors it had before (sockets
+	// are closed asynchronously by the proxy's goroutines, so allow them a few seconds)
 	fd1 := countFDs()
+	for i := 0; i < 100 && fd1 > fd0; i++ {
+		time.Sleep(100 * time.Millisecond)
+		fd1 = countFDs()
+	}
 
 	// ---- write shards
 	shardSizes := map[string]int{"ccases": 20, "acases": 20, "ncases": 100}
@@ -415,6 +516,9 @@ func main() {
 		gr.recs = append(gr.recs, o.res)
 	}
 	for _, o := range outs {
+		put(o, *graceNs)
+	}
+	for _, o := range realGrace {
 		put(o, *graceNs)
 	}
 	for _, o := range graceOuts {
@@ -447,13 +551,16 @@ func main() {
 			shards = append(shards, name)
 		}
 	}
-	all := append(append([]outcome(nil), outs...), graceOuts...)
+	all := append(append(append([]outcome(nil), outs...), realGrace...), graceOuts...)
 	var totalBytes int64
 	slowest := int64(0)
 	for _, o := range all {
 		p := o.res.P
 		dist["mode:"+p.Mode]++
 		dist["order:"+p.Order]++
+		if p.Handler {
+			dist["via_http_handler"]++
+		}
 		if p.Gated {
 			dist["gated"]++
 		} else {
@@ -515,10 +622,23 @@ func main() {
 	if len(probList) > 20 {
 		probList = probList[:20]
 	}
+	sampleTrace := ""
+	for _, o := range all {
+		if o.res.P.Gated && o.res.P.Concrete && len(o.built.Labels) > 12 && o.built.EarlyN > 0 {
+			sampleTrace = traceString(o.built.Labels, true)
+			if len(sampleTrace) > 900 {
+				sampleTrace = sampleTrace[:900] + "…"
+			}
+			break
+		}
+	}
 	meta := map[string]any{
+		"sample_trace": sampleTrace,
 		"shards": shards, "shard_index": shardIndex,
 		"scenarios": len(all), "gated_concrete": len(groups["ccases"].cases), "gated_abstract": len(groups["acases"].cases),
 		"native": len(groups["ncases"].cases), "grace_batch": len(graceOuts), "short_grace_ns": shortGrace,
+		"real_grace_scenarios": len(realGrace), "skipped_after_many_timeouts": skipped, "timed_out": timedOut.Load(),
+		"grid_complete_over": map[bool]string{true: "mode(5) x close order(3) x early{0,1,5} x banner{0,1,5} x listener read schedule(3) x handler(2) = 1620 gated scenarios", false: ""}[*tier == "thorough" && *replay == ""],
 		"distribution": dist, "max_read_observed": maxRead, "copy_buf_len_observed": bufLen,
 		"inferred_reads": inferred, "events": events, "trace_problems": problems, "trace_problem_list": probList,
 		"fd_before": fd0, "fd_after": fd1, "payload_bytes": totalBytes, "slowest_scenario_ms": slowest,
@@ -531,10 +651,29 @@ func main() {
 	}
 }
 
+// realGraceParams: two gated scenarios run with the source's own grace period; in one the second
+// closer stays silent 2.5 s longer than the period (forced close expected, no earlier than the
+// period), in the other 5 s shorter (must complete).
+func realGraceParams(seed uint64, base int, graceNs int64) []Params {
+	graceMs := int(graceNs / 1e6)
+	var ps []Params
+	for i, hold := range []int{graceMs + 2500, graceMs - 5000} {
+		if hold < 0 {
+			continue
+		}
+		p := Params{Idx: base + i, Seed: seed*7919 + uint64(i), Mode: []string{"direct", "uphttp"}[i%2], Gated: true, Concrete: true,
+			Len: [2]int{40, 90}, Order: "client_first", Seg: [2]string{"one", "small"}, Sched: [2]string{"full", "full"},
+			HeadPieces: 1, HoldMs: hold, TimeoutMs: graceMs + 15000}
+		p.Post[TC] = 30
+		ps = append(ps, p)
+	}
+	return ps
+}
+
 // runGraceBatch shortens the tunnel's grace period (verif hook) and runs gated
 // scenarios in which the second closer stays silent for less, or for more, than
 // that period after the first direction finished.
-func runGraceBatch(rig *proxyRig, seed uint64, tier string, base int) ([]outcome, int64) {
+func runGraceBatch(rig rigSet, seed uint64, tier string, base int) ([]outcome, int64) {
 	const graceMs = 1200
 	old := forwarder.VerifC03SetTunnelGrace(graceMs * time.Millisecond)
 	defer forwarder.VerifC03SetTunnelGrace(old)
